@@ -1,0 +1,10 @@
+//go:build verif
+
+package db
+
+// RegisterBackendVerif registers a database backend under the given name
+// (build tag "verif"): the simulation harness plugs its simulated disk in
+// behind the db_backend configuration key.
+func RegisterBackendVerif(backend string, creator func(name string, dir string) (DB, error)) {
+	registerDBCreator(backend, creator, true)
+}
